@@ -508,6 +508,33 @@ impl Monitor {
     }
 
     /// Composite sources report the key every child holds after a (re)registration (u64::MAX = none).
+    /// After a successful (re)registration of a composite every kept child holds a sub-token and no removed child does
+    /// (whether a child that disabled itself is registered again by a parent `register` is left open).
+    fn check_comp_children(&self, s: SrcId, keys: &[u64]) -> V {
+        let m = &self.srcs[s];
+        if m.taint.is_some() {
+            return None;
+        }
+        for (i, c) in m.children.iter().enumerate() {
+            let has = keys.get(i).map_or(false, |k| *k != u64::MAX);
+            if !c.gone && !c.disabled && !has {
+                return viol(
+                    "C16.comp_child",
+                    &["C16", "C02", "C07", "C18"],
+                    format!("composite #{s} was (re)registered successfully, but its kept child {i} ({:?}) was not registered with it", c.kind),
+                );
+            }
+            if c.gone && has {
+                return viol(
+                    "C16.comp_child",
+                    &["C16", "C06", "C18"],
+                    format!("composite #{s} was (re)registered and registered child {i} ({:?}) again, which had been removed through its transient wrapper", c.kind),
+                );
+            }
+        }
+        None
+    }
+
     fn comp_keys(&mut self, s: SrcId, keys: &[u64], registered: bool) {
         let in_disp = self.in_disp;
         let m = &mut self.srcs[s];
@@ -2006,6 +2033,9 @@ impl Monitor {
             }
             Ev::Reg { src, res, keys } => {
                 if res.is_ok() {
+                    if let Some(v) = self.check_comp_children(*src, keys) {
+                        return Some(v);
+                    }
                     self.comp_keys(*src, keys, true);
                 } else {
                     // a composite whose registration failed half-way does not roll back (book style): the timer
@@ -2026,6 +2056,9 @@ impl Monitor {
             }
             Ev::Rereg { src, res, keys } => {
                 if res.is_ok() {
+                    if let Some(v) = self.check_comp_children(*src, keys) {
+                        return Some(v);
+                    }
                     self.comp_keys(*src, keys, true);
                 }
                 self.on_regev(RegKind::Rereg, *src, res)
